@@ -22,6 +22,7 @@ import PdshVerif.Hostlist.LemmasIter
 import PdshVerif.Hostlist.LemmasCreate
 import PdshVerif.Hostlist.LemmasTok
 import PdshVerif.Hostlist.LemmasShift
+import PdshVerif.Hostlist.LemmasExpand
 
 namespace PdshVerif.C01
 open PdshVerif.Hostlist PdshVerif.Gen
@@ -105,6 +106,38 @@ theorem create_render (cfg : Cfg) (lead : Str) (items : List (Spec.Word × Str))
   have : (items.map fun p => Spec.renderWord p.1) = (items.map (·.1)).map Spec.renderWord := by
     rw [List.map_map]; rfl
   rw [this, h1]
+
+/-- SECOND LEVEL.  opt.c `wcoll_expand` — shift every host out, push it again as an expression of
+    its own — turns a working collective that denotes the FIRST-level expansion of a well-formed
+    expression into one that denotes its full mathematical expansion `expand₂` (a second bracket
+    pair in a word is expanded for every name of the first; plain names come back as themselves).
+    `hd2`: the first-level names are inside the domain of the parser theorem again (`reword w` are
+    those names as words: D18 plain names shorter than 1023 bytes, D23/D25 for the second group);
+    `ShiftFits`: numbers fit the buffer `hostrange_shift` allocates. -/
+theorem wcoll_expand₂ (cfg : Cfg) (e : Spec.Expr) (hw : Spec.WF e = true)
+    (hd2 : ∀ w ∈ e, ∀ w' ∈ reword w, wordDom cfg w') (h : HL) (hg : h.Good)
+    (hf : ∀ r ∈ h.ranges.toList, r.ShiftFits) (hh : h.hosts = Spec.expand₁ e) :
+    ∃ h', wcollExpand cfg h = .ok h' ∧ h'.Good ∧ h'.hosts = Spec.expand₂ e :=
+  wcollExpand_expand₂ cfg e hw hd2 h hg hf hh
+
+/-- TEXT TO TARGETS: `hostlist_create` on the text of a well-formed expression followed by
+    `wcoll_expand` yields exactly `expand₂` of the expression -/
+theorem text_expand₂ (cfg : Cfg) (lead : Str) (items : List (Spec.Word × Str))
+    (hl : lead.all Spec.sepChar = true) (hok : Spec.sepsOK items = true)
+    (hw : ∀ p ∈ items, p.1.WF = true) (hd : ∀ p ∈ items, wordDom cfg p.1)
+    (hd2 : ∀ p ∈ items, ∀ w' ∈ reword p.1, wordDom cfg w')
+    (hf : ∀ h, create cfg (Spec.render lead items) = .ok h → ∀ r ∈ h.ranges.toList, r.ShiftFits) :
+    ∃ h h', create cfg (Spec.render lead items) = .ok h ∧ wcollExpand cfg h = .ok h' ∧ h'.Good ∧
+      h'.hosts = Spec.expand₂ (items.map (·.1)) := by
+  obtain ⟨h, hc, hg, hh, _⟩ := create_render cfg lead items hl hok hw hd
+  have hwf : Spec.WF (items.map (·.1)) = true := by
+    unfold Spec.WF
+    simp only [List.all_map, List.all_eq_true]
+    intro p hp; exact hw p hp
+  obtain ⟨h', h1, h2, h3⟩ := wcoll_expand₂ cfg (items.map (·.1)) hwf
+    (fun w hw' w' hw'' => by obtain ⟨p, hp, rfl⟩ := List.mem_map.mp hw'; exact hd2 p hp w' hw'')
+    h hg (hf h hc) hh
+  exact ⟨h, h', hc, h1, h2, h3⟩
 
 /-- STRING LEVEL, REPAIRED VARIANT: with D18 and D23 repaired the only restriction left is that no
     range reaches 2^64-1 (such a range is refused there, see C15.range_limit) -/
